@@ -361,6 +361,33 @@ Theorem gen_landweber_is_model :
 Proof. exact gen_lw_run. Qed.
 Print Assumptions gen_landweber_is_model.
 
+(* resumption of the generated landweber / steepest_descent programs through the caller's x:
+   call with n, call again with m on the object the first call updated = one call with n+m
+   (for steepest_descent the second call starts without the first call's `return`) *)
+Theorem gen_landweber_resume_exact :
+  forall (A : list R -> list R) (Dadj : list R -> list R -> list R) (proj : list R -> list R) (omega : R)
+         (junk : string -> list R) (n m : nat) (x rhs : list R),
+  let I := lw_I A Dadj proj omega junk in
+  exists s1 x1 s2 s12,
+    run_prog I landweber_pre landweber_body n (mk_hst env_lw_in [x; rhs] []) = Some s1
+    /\ deref s1 "caller.x" = Some x1
+    /\ run_prog I landweber_pre landweber_body m (mk_hst env_lw_in [x1; rhs] []) = Some s2
+    /\ run_prog I landweber_pre landweber_body (n + m) (mk_hst env_lw_in [x; rhs] []) = Some s12
+    /\ deref s2 "caller.x" = deref s12 "caller.x".
+Proof. exact gen_lw_resume. Qed.
+Print Assumptions gen_landweber_resume_exact.
+Theorem gen_steepest_descent_resume_exact :
+  forall (grad proj : list R -> list R) (step tol : R) (junk : string -> list R) (n m : nat) (x : list R),
+  let I := sd_I grad proj step tol junk in
+  exists s1 x1 s2 s12,
+    run_prog I steepest_descent_pre steepest_descent_body n (mk_hst env_x [x] []) = Some s1
+    /\ deref s1 "caller.x" = Some x1
+    /\ run_prog I steepest_descent_pre steepest_descent_body m (mk_hst env_x [x1] []) = Some s2
+    /\ run_prog I steepest_descent_pre steepest_descent_body (n + m) (mk_hst env_x [x] []) = Some s12
+    /\ deref s2 "caller.x" = deref s12 "caller.x".
+Proof. exact gen_sd_resume. Qed.
+Print Assumptions gen_steepest_descent_resume_exact.
+
 (* generated dca and prox_dca (same file as doubleprox_dc): final x and log are those of the model *)
 Theorem gen_dca_prox_dca_are_models :
   forall (gradfcc gradg proxf : list R -> list R) (gamma : R) (junk : string -> list R) (niter : nat) (x : list R),
